@@ -1,8 +1,8 @@
 (* C10 - Structural rewrites preserve what a pipeline computes.
    Only statements here; every proof is `exact <lemma>` into Proofs/.  All theorems hold for an arbitrary
    user-code oracle `body` (called with ORIGINAL parameter names) and output picker `pick`. *)
-From Verif Require Import Base.Prelude Base.StrOrd Base.StrUtil Base.Graph Model.Pipe Model.Rewrite
-  Proofs.GraphFacts Proofs.RewriteFacts.
+From Verif Require Import Base.Prelude Base.StrOrd Base.StrUtil Base.Graph Model.Pipe Model.Rewrite Model.Alias
+  Proofs.GraphFacts Proofs.RewriteFacts Proofs.AliasFacts.
 
 (* ---------- renaming ---------- *)
 (* rename_preserves: for a renaming that is one-to-one on the names involved, the renamed pipeline evaluates the
@@ -83,3 +83,44 @@ Print Assumptions C10_join_preserves.
 Theorem C10_copy_preserves : forall p, apply_op OCopy p = Ok p /\ apply_op OPickle p = Ok p.
 Proof. exact copy_identity. Qed.
 Print Assumptions C10_copy_preserves.
+
+(* ---------- aliasing (heap model Alias) ---------- *)
+(* no_inplace_write: no operation (copy, pickle, join, simplify, split, update_defaults / bound / renames / scope,
+   drop, nest_funcs) changes a dict or MapSpec object that existed before it - for every heap, also ill-formed ones *)
+Theorem C10_no_inplace_write : forall spec_ren h x h' r, Alias.step spec_ren h x = Some (h', r) ->
+  forall l c, nth_error h l = Some c -> Alias.is_data c = true -> nth_error h' l = Some c.
+Proof. exact no_inplace_write. Qed.
+Print Assumptions C10_no_inplace_write.
+
+(* mutation_isolated: the observable state (parameters, outputs, defaults, bound, renames, MapSpec, inner
+   pipelines: Alias.pobs) of a pipeline object q is unchanged by any operation applied to a pipeline p whose own
+   objects (the Pipeline object and its PipeFunc objects) are not objects of q - no matter how many dicts p and q
+   share *)
+Theorem C10_mutation_isolated : forall spec_ren h x h' r q v,
+  Alias.step spec_ren h x = Some (h', r) ->
+  Alias.pobs h q = Some v ->
+  (forall l, In l (Alias.objs h q) -> ~ In l (owned h (Alias.target x))) ->
+  Alias.pobs h' q = Some v.
+Proof. exact mutation_isolated. Qed.
+Print Assumptions C10_mutation_isolated.
+
+(* operations that return a new pipeline leave every existing pipeline unchanged *)
+Theorem C10_original_unchanged : forall spec_ren h x h' r q v,
+  Alias.step spec_ren h x = Some (h', r) -> Alias.target x = None -> Alias.pobs h q = Some v -> Alias.pobs h' q = Some v.
+Proof. exact new_pipeline_ops_leave_original. Qed.
+Print Assumptions C10_original_unchanged.
+
+(* non-vacuity: a pipeline and its copy share the `_defaults` dict of their function, their objects are disjoint,
+   and update_defaults on the copy is an operation the theorem applies to *)
+Example C10_example_isolated :
+  let ds := [ {| Alias.d_name := s "f"; Alias.d_outs := [s "a"]; Alias.d_params := [(s "x", s "x"); (s "y", s "y")];
+                 Alias.d_sigd := []; Alias.d_defs := [(s "y", s "dy")]; Alias.d_bound := []; Alias.d_cached := false |} ] in
+  exists h P Q fP fQ,
+    Alias.build [] ds = Some (h, P) /\ True
+    /\ (exists h2, Alias.pipeline_copy h P = Some (h2, Q)
+         /\ Alias.get_pipe h2 P = Some [fP] /\ Alias.get_pipe h2 Q = Some [fQ] /\ fP <> fQ
+         /\ (exists a b, Alias.get_func h2 fP = Some a /\ Alias.get_func h2 fQ = Some b /\ Alias.o_dfl a = Alias.o_dfl b)
+         /\ (forall l, In l (Alias.objs h2 P) -> ~ In l (owned h2 (Alias.target (Alias.HUpdateDefaults Q [(s "x", s "dx")]))))
+         /\ exists h3, Alias.step (fun _ m => m) h2 (Alias.HUpdateDefaults Q [(s "x", s "dx")]) = Some (h3, None)
+                        /\ Alias.pobs h3 P = Alias.pobs h2 P /\ Alias.pobs h3 Q <> Alias.pobs h2 Q).
+Proof. exact alias_instance. Qed.
